@@ -172,11 +172,18 @@ impl<Meta> Archive<Meta> {
 
         let mut stats = ArchiveStats::default();
 
+        // Objects cannot overlap, so there can only be so many of them. If
+        // we see more, some chain loops.
+        let mut remaining = self.max_object_count();
+
         // Step 1. Go over each index bucket and collect all the objects.
         // Check that the name hashes correctly.
         for idx in 0.. usize_to_u64(self.meta.bucket_count) {
             let mut start = self.get_index(idx)?;
             while let Some(pos) = start {
+                remaining = remaining.checked_sub(1).ok_or(
+                    ArchiveError::Corrupt("too many objects")
+                )?;
                 let (header, name) = ObjectHeader::read_with_name(
                     &self.file, pos.into()
                 )?;
@@ -185,9 +192,15 @@ impl<Meta> Archive<Meta> {
                 }
                 objects.push((u64::from(pos), header.size));
                 stats.object_count += 1;
-                stats.object_size += header.size;
-                stats.padding_size += header.size.saturating_sub(
-                    Self::min_object_size(header.name_len, header.data_len)
+                stats.object_size = stats.object_size.saturating_add(
+                    header.size
+                );
+                stats.padding_size = stats.padding_size.saturating_add(
+                    header.size.saturating_sub(
+                        Self::min_object_size(
+                            header.name_len, header.data_len
+                        )
+                    )
                 );
                 start = header.next;
             }
@@ -196,10 +209,13 @@ impl<Meta> Archive<Meta> {
         // Step 2. Go over the empty space.
         let mut start = self.get_empty_index()?;
         while let Some(pos) = start {
+            remaining = remaining.checked_sub(1).ok_or(
+                ArchiveError::Corrupt("too many objects")
+            )?;
             let header = ObjectHeader::read(&self.file, pos.into())?;
             objects.push((u64::from(pos), header.size));
             stats.empty_count += 1;
-            stats.empty_size += header.size;
+            stats.empty_size = stats.empty_size.saturating_add(header.size);
             if stats.empty_min == 0 {
                 stats.empty_min = header.size
             }
@@ -214,7 +230,7 @@ impl<Meta> Archive<Meta> {
         objects.sort_by_key(|obj| obj.0);
 
         for window in objects.windows(2) {
-            if window[1].0 != window[0].0 + window[0].1 {
+            if Some(window[1].0) != window[0].0.checked_add(window[0].1) {
                 return Err(ArchiveError::Corrupt("broken sequence"))
             }
         }
@@ -500,7 +516,11 @@ impl<Meta: ObjectMeta> Archive<Meta> {
         }
 
         // We are further down the chain.
+        let mut remaining = self.max_object_count();
         while let Some(pos) = curr {
+            remaining = remaining.checked_sub(1).ok_or(
+                ArchiveError::Corrupt("loop in empty chain")
+            )?;
             let header = ObjectHeader::read(&self.file, pos.into())?;
             if header.next == start {
                 ObjectHeader::update_next(pos.into(), next, &mut self.file)?;
@@ -519,7 +539,11 @@ impl<Meta: ObjectMeta> Archive<Meta> {
     ) -> Result<Option<FoundObject>, ArchiveError> {
         let mut start = self.get_index(hash)?;
         let mut prev = None;
+        let mut remaining = self.max_object_count();
         while let Some(pos) = start {
+            remaining = remaining.checked_sub(1).ok_or(
+                ArchiveError::Corrupt("loop in bucket chain")
+            )?;
             let (header, object_name) = ObjectHeader::read_with_name(
                 &self.file, pos.into()
             )?;
@@ -549,7 +573,11 @@ impl<Meta: ObjectMeta> Archive<Meta> {
         }
         let size = Self::page_object_size(name, data);
         let mut candidates = Vec::new();
+        let mut remaining = self.max_object_count();
         while let Some(pos) = start {
+            remaining = remaining.checked_sub(1).ok_or(
+                ArchiveError::Corrupt("loop in empty chain")
+            )?;
             let header = ObjectHeader::read(&self.file, pos.into())?;
             start = header.next;
             if Self::fits(header.size, size) {
@@ -588,10 +616,11 @@ impl<Meta: ObjectMeta> Archive<Meta> {
 
     /// Returns the size of an object with the given name and content.
     fn min_object_size(name_len: usize, data_len: usize) -> u64 {
-          ObjectHeader::SIZE
-        + usize_to_u64(name_len)
-        + usize_to_u64(Meta::SIZE)
-        + usize_to_u64(data_len)
+        // The lengths may come from a corrupt archive: don’t overflow.
+        ObjectHeader::SIZE
+        .saturating_add(usize_to_u64(name_len))
+        .saturating_add(usize_to_u64(Meta::SIZE))
+        .saturating_add(usize_to_u64(data_len))
     }
 
     /// Returns the object size rounded up to full pages.
@@ -681,6 +710,14 @@ impl<Meta> Archive<Meta> {
         self.file.write(self.empty_index_pos(), |write| {
             write.write_u64(pos.map(Into::into).unwrap_or(0))
         })
+    }
+
+    /// Returns an upper bound for the number of objects in the archive.
+    ///
+    /// Chains of objects in a corrupt archive may loop. Everything that
+    /// follows a chain gives up after this many steps.
+    fn max_object_count(&self) -> u64 {
+        self.file.size / ObjectHeader::SIZE + 1
     }
 }
 
@@ -829,6 +866,11 @@ pub struct ObjectsIter<'a, Meta> {
 
     /// The next item in the currently visited bucket.
     next: Option<NonZeroU64>,
+
+    /// The number of objects we are still willing to return.
+    ///
+    /// This protects against looping chains in a corrupt archive.
+    remaining: u64,
 }
 
 impl<'a, Meta> ObjectsIter<'a, Meta> {
@@ -838,6 +880,7 @@ impl<'a, Meta> ObjectsIter<'a, Meta> {
             archive,
             buckets: 1..usize_to_u64(archive.meta.bucket_count),
             next: archive.get_index(0)?,
+            remaining: archive.max_object_count(),
         })
     }
 }
@@ -853,6 +896,9 @@ impl<'a, Meta: ObjectMeta> ObjectsIter<'a, Meta> {
     ) -> Result<Option<(Cow<'a, [u8]>, Meta, Cow<'a, [u8]>)>, ArchiveError> {
         loop {
             if let Some(pos) = self.next {
+                self.remaining = self.remaining.checked_sub(1).ok_or(
+                    ArchiveError::Corrupt("too many objects")
+                )?;
                 let (next, res) = self.archive.file.read(pos.into(), |read| {
                     let header = ObjectHeader::read_from(read)?;
                     let name = read.read_slice(header.name_len)?;
